@@ -288,6 +288,19 @@ pub fn contexts() -> Vec<Ctx> {
         // one delegated run that starts with a capture group and ends with a non-capturing one
         ("(X)(?:a|b)(?!c)", Box::new(move |x| Concat(vec![Node::group(x), Alt(vec![la(), lb()]), Look(b(Node::lit("c")), false, true)]))),
         ("\\b(a)X(?:b|c)", Box::new(move |x| Concat(vec![Assert(A::WordB), Node::group(la()), x, Alt(vec![lb(), Node::lit("c")])]))),
+        // a backreference inside a negative look-around that is reached twice at one position
+        // with different contents of the group
+        ("(X)b(?!\\1c)", Box::new(move |x| Concat(vec![Node::group(x), lb(), Look(b(Concat(vec![Backref(1), Node::lit("c")])), false, true)]))),
+        ("(?:(a)|X)(?!\\1)", Box::new(move |x| Concat(vec![Alt(vec![Node::group(la()), x]), Look(b(Backref(1)), false, true)]))),
+        // two delegated pieces with capture groups, the second with more groups than the first
+        ("(X)\\b(a)(b)?", Box::new(move |x| Concat(vec![Node::group(x), Assert(A::WordB), Node::group(la()), Repeat(b(Node::group(lb())), 0, Some(1), Mode::Greedy)]))),
+        ("(?=(X))(a)(b)", Box::new(move |x| Concat(vec![Look(b(Node::group(x)), false, false), Node::group(la()), Node::group(lb())]))),
+        // a capture group as the whole body of an atomic group, hard start, variable easy end
+        ("(?>(\\bX))b?", Box::new(move |x| Concat(vec![Atomic(b(Node::group(Concat(vec![Assert(A::WordB), x])))), Repeat(b(lb()), 0, Some(1), Mode::Greedy)]))),
+        // \K inside a conditional (condition, branch, look-around in the condition)
+        ("(?(X)a\\K|b)", Box::new(move |x| CondExpr(b(x), b(Concat(vec![la(), KeepOut])), b(lb())))),
+        ("(?((?<=\\Ka))X|b)", Box::new(move |x| CondExpr(b(Look(b(Concat(vec![KeepOut, la()])), true, false)), b(x), b(lb())))),
+        ("(?((?=a))a(?=X\\K)|b)", Box::new(move |x| CondExpr(b(Look(b(la()), false, false)), b(Concat(vec![la(), Look(b(Concat(vec![x, KeepOut])), false, false)])), b(lb())))),
         // an optional group that ends in a negative look-around (its Split branch and the
         // look-around's own branch sit next to each other on the stack)
         ("a(?:X|(?!b))?b", Box::new(move |x| Concat(vec![la(), Repeat(b(Alt(vec![x, Look(b(lb()), false, true)])), 0, Some(1), Mode::Greedy), lb()]))),
